@@ -1,5 +1,7 @@
 import GoSQLXModel.Model.LexGen
 import GoSQLXModel.Proofs.LexMunch
+import GoSQLXModel.Proofs.LexSpell
+import GoSQLXModel.Driver.GoClass
 /-!
 # C04 — The token stream is a faithful, layout-independent reading of the text
 
@@ -20,8 +22,16 @@ Proved for every classifier, every table and every byte string (`Proofs/Lex*.lea
 Obligations on the regenerated tables: well-formedness (`TablesOK`), the operator table is prefix-closed (so the
 nested `if` ladder of readPunctuation and the longest-match reading coincide), keywords are stored upper-case.
 
-**Partial**: the full statement `lex_spell` (for every sequence of reference lexemes and separators the token list is
-the lexeme list) is not proved in Lean; it is checked by the harness against the generator's own record
+* `tokenize_spell` (`Proofs/LexSpell.lean`) — the reference surface: every sequence, of any length within the limits,
+  of ASCII words (keywords by the keyword table, else identifiers; not the first word of a compound keyword),
+  unsigned integers and `( ) , ;`, each followed by *any* non-empty run of blanks, is read as exactly that sequence of
+  (type, text) pairs, then one end marker, with no comments; `tokenize_layout_independent`: hence two layouts of the
+  same lexemes give the same tokens.  Its hypotheses on the parameters are decidable and discharged here for the
+  classifier dumped from the Go runtime (`go_class_ascii_ok`) and today's operator table (`gen_punct_ok`).
+
+**Partial**: for the rest of the lexical surface (string and quoted-identifier forms, numbers with fraction/exponent,
+multi-byte operators, compound keywords, comments between elements, non-ASCII identifiers) the statement "the token
+list is the lexeme list" is not a Lean theorem; it is checked by the harness against the generator's own record
 (oracle), exhaustively for operator pairs, and the model is tied to the code by the byte-level correspondence.
 -/
 namespace GoSQLXModel.Props.C04
@@ -100,6 +110,53 @@ theorem operator_maximal_munch (bs : Bytes) {o : Bytes × Nat} (h : longestOp ge
     o ∈ genLexTables.operators ∧ o.1.isPrefixOf bs = true ∧
       ∀ x ∈ genLexTables.operators, x.1.isPrefixOf bs = true → x.1 ≠ [] → x.1.length ≤ o.1.length :=
   longestOp_maximal _ bs h
+
+/-! ## the reference surface: lexemes separated by blanks are read as exactly those lexemes -/
+
+/-- the classifier dumped from the Go runtime in use treats ASCII as the reference surface assumes -/
+theorem go_class_ascii_ok : AsciiOK Driver.goClass := asciiOK_of_bool _ (by decide +kernel)
+theorem ascii_class_ok : AsciiOK CharClass.ascii := asciiOK_of_bool _ (by decide +kernel)
+
+/-- in today's operator table nothing but the byte itself starts with `(`, `)`, `,` or `;` -/
+theorem gen_punct_ok : (∃ ty, PunctOK genLexTables 40 ty) ∧ (∃ ty, PunctOK genLexTables 41 ty) ∧
+    (∃ ty, PunctOK genLexTables 44 ty) ∧ (∃ ty, PunctOK genLexTables 59 ty) :=
+  ⟨punctOK_of_bool _ _ (by decide +kernel), punctOK_of_bool _ _ (by decide +kernel), punctOK_of_bool _ _ (by decide +kernel),
+   punctOK_of_bool _ _ (by decide +kernel)⟩
+
+/-- **C04 (reference surface)**: with the Go classifier and today's tables, any sequence of words, integers and
+    `( ) , ;`, each followed by any non-empty run of blanks, is read as exactly that sequence of tokens (keyword type
+    from the keyword table, else identifier; number; the punctuation's type), then one end marker, with no comments -/
+theorem reference_lexemes_are_the_tokens (lead : Bytes) (items : List Item)
+    (hlead : ∀ x ∈ lead, isWS x = true) (hok : ∀ it ∈ items, ItemOK Driver.goClass genLexTables it)
+    (hsize : (lead ++ flat items).length ≤ genLexTables.maxInput) (hcount : items.length ≤ genLexTables.maxTokens) :
+    ∃ toks, tokenize Driver.goClass genLexTables (lead ++ flat items) = .ok toks [] ∧
+      toks.map Tok.key = (items.map fun it => it.1.key Driver.goClass genLexTables) ++ [(0, [])] :=
+  tokenize_spell Driver.goClass genLexTables go_class_ascii_ok lead items hlead hok hsize hcount
+
+/-- **C04 (layout independence on the reference surface)** -/
+theorem layout_independent (lead1 lead2 : Bytes) (items1 items2 : List Item)
+    (hsame : items1.map (·.1.key Driver.goClass genLexTables) = items2.map (·.1.key Driver.goClass genLexTables))
+    (hl1 : ∀ x ∈ lead1, isWS x = true) (hl2 : ∀ x ∈ lead2, isWS x = true)
+    (hok1 : ∀ it ∈ items1, ItemOK Driver.goClass genLexTables it) (hok2 : ∀ it ∈ items2, ItemOK Driver.goClass genLexTables it)
+    (hs1 : (lead1 ++ flat items1).length ≤ genLexTables.maxInput) (hs2 : (lead2 ++ flat items2).length ≤ genLexTables.maxInput)
+    (hc1 : items1.length ≤ genLexTables.maxTokens) (hc2 : items2.length ≤ genLexTables.maxTokens) :
+    ∃ t1 t2, tokenize Driver.goClass genLexTables (lead1 ++ flat items1) = .ok t1 [] ∧
+      tokenize Driver.goClass genLexTables (lead2 ++ flat items2) = .ok t2 [] ∧ t1.map Tok.key = t2.map Tok.key :=
+  tokenize_layout_independent Driver.goClass genLexTables go_class_ascii_ok lead1 lead2 items1 items2 hsame hl1 hl2 hok1 hok2 hs1 hs2 hc1 hc2
+
+/-- the hypotheses are satisfiable: `select a , 12 ;` with two different layouts -/
+example : ∃ items : List Item, items.length = 5 ∧ (∀ it ∈ items, ItemOK CharClass.ascii genLexTables it) := by
+  refine ⟨[(.word (strBytes "select"), [32]), (.word (strBytes "a"), [32, 10]), (.punct 44, [9]), (.int (strBytes "12"), [32]),
+    (.punct 59, [10])], rfl, ?_⟩
+  intro it hit
+  simp only [List.mem_cons, List.not_mem_nil, or_false] at hit
+  rcases hit with rfl | rfl | rfl | rfl | rfl
+  · exact ⟨⟨115, strBytes "elect", by decide +kernel, by decide +kernel, by decide +kernel, by decide +kernel⟩, by simp, by decide +kernel⟩
+  · exact ⟨⟨97, [], by decide +kernel, by decide +kernel, by simp, by decide +kernel⟩, by simp, by decide +kernel⟩
+  · exact ⟨⟨by decide +kernel, gen_punct_ok.2.2.1⟩, by simp, by decide +kernel⟩
+  · exact ⟨⟨by decide +kernel, by decide +kernel⟩, by simp, by decide +kernel⟩
+  · exact ⟨⟨by decide +kernel, gen_punct_ok.2.2.2⟩, by simp, by decide +kernel⟩
+
 
 /-! ## non-vacuity: the model on concrete inputs (ASCII classifier) -/
 
